@@ -107,6 +107,7 @@ type Config struct {
 	Debug       bool
 	Trace       bool
 	MapOrderAll bool
+	Sites       bool
 }
 
 type Interp struct {
@@ -163,6 +164,7 @@ type Interp struct {
 	knownIDs  map[string]bool
 	nObl, nDischarged, nCross int
 	loopBoundOverride int
+	inPure bool
 }
 
 type knownRegion struct {
@@ -231,6 +233,7 @@ func (in *Interp) resetPath(prefix []int) {
 	in.chooses = nil
 	in.loopBoundOverride = 0
 	in.ghostOn = false
+	in.inPure = false
 }
 
 func (in *Interp) assumeTerm(c *Term) {
@@ -774,7 +777,11 @@ func (in *Interp) exec(th *Thread, f *Frame, instr ssa.Instruction) {
 				f.symIter = map[ssa.Instruction]int{}
 			}
 			before := len(in.dec)
-			dir = in.branch(c, "if")
+			kind := "if"
+			if in.cfg.Sites {
+				kind = "if@" + in.fset.Position(x.Cond.Pos()).String()
+			}
+			dir = in.branch(c, kind)
 			if len(in.dec) > before {
 				f.symIter[instr]++
 				lim := in.cfg.SymUnwind
@@ -998,6 +1005,12 @@ func (in *Interp) execCall(th *Thread, f *Frame, dst ssa.Value, c *ssa.CallCommo
 			return
 		}
 	}
+	if b, ok := c.Value.(*ssa.Builtin); ok && b.Name() == "Sizeof" {
+		sz := (&types.StdSizes{WordSize: 8, MaxAlign: 8}).Sizeof(c.Args[0].Type())
+		f.env[dst] = in.tb.Const(uint64(sz), 64)
+		f.ip++
+		return
+	}
 	d := in.prepareCall(f, c)
 	in.invoke(th, d.fn, d.args, dst, false, instr.Pos())
 }
@@ -1030,6 +1043,13 @@ func (in *Interp) invoke(th *Thread, fnv Value, args []Value, dst ssa.Value, isD
 			return
 		}
 		in.inited[fn.Pkg] = true
+	}
+	if strings.HasPrefix(fn.Name(), "zzPure") && !in.inPure {
+		in.inPure = true
+		res := in.summarize(th, fv, args)
+		in.inPure = false
+		in.finishDirect(th, caller, dst, res, isDefer)
+		return
 	}
 	if st := in.findStub(fn); st != nil {
 		in.stubsUsed[stubName(fn)]++
